@@ -116,7 +116,7 @@ def sweeps_for_crop(name, dense=False, rnd=None):
         out.append({"f": "cc_development.decline*", "crop": name, "kind": "mono", "dir": "noninc", "lo": to_num(0), "hi": to_num(ccx),
                     "pts": pts(ts2, [float(cc_development(cc0, ccx, g, d, t, "Decline", ccx)) for t in ts2]), "x": {}, "bounds": []})
     # inverse: growth(required_time(c)) = c for c in [CC0, 0.98 CCx]
-    cs = frange(float(c.CC0), 0.98 * float(c.CCx), 60 if dense else 30)
+    cs = frange(float(c.CC0), 0.98 * float(c.CCx), 60 if dense else 30) + [float(c.CCx) * (1.0 - 10.0 ** (-k)) for k in (2, 3, 4, 5, 6)] + [float(c.CCx) - 3e-7]
     back = []
     for cv in cs:
         t = cc_required_time(cv, c.CC0, c.CCx, cgc, cdc, "CGC")
